@@ -2,9 +2,10 @@
     Model/Table.v against the list-of-rows specifications of Spec/TableSpec.v:
     filtered, count, filtered_by_column, distinct_values, get_columns,
     with_new_column, transposed, appended. *)
-From Coq Require Import Permutation.
+From Coq Require Import Permutation QArith.
 From CG3 Require Import Lib.PyZ Lib.Chars Lib.StableSort Lib.Val Model.Csv Model.Table Spec.TableSpec Proofs.TableBase.
 Import ListNotations.
+Open Scope Z_scope.
 
 (* ------------------------------------------------------------------ boolean masks *)
 
@@ -214,18 +215,32 @@ Qed.
 
 (* ------------------------------------------------------------------ key equality is an equivalence *)
 
-Definition cell_norm (c : cell) : cell := match c with CB b => CI (b2z b) | x => x end.
+(* normal form: a number as its reduced fraction, anything else as itself *)
+Definition cell_norm (c : cell) : Q + cell :=
+  match cell_q c with Some q => inl (Qred q) | None => inr c end.
+
+Lemma Qred_eq_iff (p q : Q) : Qeq p q <-> Qred p = Qred q.
+Proof.
+  split.
+  - apply Qred_complete.
+  - intros H. apply Qeq_trans with (Qred p); [apply Qeq_sym; apply Qred_correct|].
+    rewrite H. apply Qred_correct.
+Qed.
 
 Lemma cell_eqb_norm a b : cell_eqb a b = true <-> cell_norm a = cell_norm b.
 Proof.
-  destruct a as [x|x|x|], b as [y|y|y|]; cbn [cell_eqb cell_norm];
-    try (split; intros H; discriminate).
-  - rewrite Z.eqb_eq. split; intros H; [subst; reflexivity|inversion H; reflexivity].
-  - rewrite Z.eqb_eq. split; intros H; [subst; reflexivity|inversion H; reflexivity].
-  - rewrite str_eqb_eq. split; intros H; [subst; reflexivity|inversion H; reflexivity].
-  - rewrite Z.eqb_eq. split; intros H; [subst; reflexivity|inversion H; reflexivity].
-  - destruct x, y; cbn; split; intros H; try reflexivity; discriminate.
-  - split; reflexivity.
+  unfold cell_eqb, cell_norm.
+  destruct (cell_q a) as [p|] eqn:Ea, (cell_q b) as [q|] eqn:Eb.
+  - rewrite Qeq_bool_iff, Qred_eq_iff. split; intros H; [rewrite H; reflexivity|].
+    inversion H as [H']. reflexivity.
+  - split; intros H; discriminate.
+  - split; intros H; discriminate.
+  - destruct a as [x|x|x| |x1 x2]; try discriminate Ea;
+      destruct b as [y|y|y| |y1 y2]; try discriminate Eb.
+    + rewrite str_eqb_eq. split; intros H; [subst; reflexivity|inversion H; reflexivity].
+    + split; intros H; discriminate.
+    + split; intros H; discriminate.
+    + split; reflexivity.
 Qed.
 
 Lemma key_eqb_norm a : forall b, key_eqb a b = true <-> map cell_norm a = map cell_norm b.
@@ -324,6 +339,36 @@ Proof.
   rewrite (get_cols_ok t names Hwf Hincl). cbn [bind]. rewrite Hz. reflexivity.
 Qed.
 
+(* ------------------------------------------------------------------ coerce_col *)
+
+(* the coercion changes nothing on a column without floats ... *)
+Lemma coerce_col_id v : (forall c, In c v -> is_float_cell c = false) -> coerce_col v = v.
+Proof.
+  intros H. unfold coerce_col.
+  assert (He : existsb is_float_cell v = false).
+  { destruct (existsb is_float_cell v) eqn:E; [|reflexivity].
+    apply existsb_exists in E. destruct E as [c [Hin Hc]]. rewrite (H c Hin) in Hc. discriminate. }
+  rewrite He, andb_false_r. reflexivity.
+Qed.
+
+(* ... and on a column of floats *)
+Lemma coerce_col_id_float v : forallb is_float_cell v = true -> coerce_col v = v.
+Proof.
+  intros H. unfold coerce_col.
+  destruct (forallb is_num_cell v && existsb is_float_cell v); [|reflexivity].
+  rewrite <- (map_id v) at 2. apply map_ext_in. intros c Hc.
+  rewrite forallb_forall in H. specialize (H c Hc).
+  destruct c; try discriminate H. reflexivity.
+Qed.
+
+Example coerce_col_id_ex : coerce_col [CI 1; CS [97]; CN; CB true] = [CI 1; CS [97]; CN; CB true].
+Proof.
+  apply coerce_col_id. intros c [Hc|[Hc|[Hc|[Hc|[]]]]]; subst c; reflexivity.
+Qed.
+
+Example coerce_col_id_float_ex : coerce_col [CF 15 (-1); CF 0 0; CF (-2) 3] = [CF 15 (-1); CF 0 0; CF (-2) 3].
+Proof. apply coerce_col_id_float. reflexivity. Qed.
+
 (* ------------------------------------------------------------------ with_new_column *)
 
 Lemma cols_of_hdr t : wf t -> map (col_of t) (hdr t) = cols t.
@@ -353,11 +398,13 @@ Qed.
 Theorem with_new_column_spec : forall t new f columns,
   wf t -> incl (default_cols t columns) (hdr t) -> NoDup (default_cols t columns) ->
   default_cols t columns <> [] ->
+  coerce_col (map (fun r => f (proj (hdr t) (default_cols t columns) r)) (rows t)) =
+  map (fun r => f (proj (hdr t) (default_cols t columns) r)) (rows t) ->
   let keep := filter (fun c => negb (str_eqb c new)) (hdr t) in
   exists t', with_new_column t new f columns = Ok t' /\ hdr t' = keep ++ [new] /\ wf t' /\
              rows t' = spec_with_new_column (hdr t) (rows t) new f (default_cols t columns).
 Proof.
-  intros t new f columns Hwf Hincl Hnd Hne keep. set (names := default_cols t columns) in *.
+  intros t new f columns Hwf Hincl Hnd Hne Hco keep. set (names := default_cols t columns) in *.
   pose proof Hwf as [Hl [Hf Hndh]].
   unfold with_new_column. fold names.
   set (mask := map (fun c => negb (str_eqb c new)) (hdr t)).
@@ -374,9 +421,10 @@ Proof.
   rewrite (set_cols_empty keep (map (col_of t) keep) (nrows t));
     [|rewrite map_length; reflexivity|exact Hkf|exact Hknd].
   cbn [bind]. rewrite (sub_array_ok t names Hwf Hincl Hnd Hne). cbn [bind].
-  set (v := map f (map (proj (hdr t) names) (rows t))).
+  rewrite (map_map (proj (hdr t) names) f), Hco.
+  set (v := map (fun r => f (proj (hdr t) names r)) (rows t)).
   assert (Hv : length v = nrows t).
-  { unfold v. rewrite !map_length. apply rows_length. }
+  { unfold v. rewrite map_length. apply rows_length. }
   unfold set_col. cbn [hdr cols nrows].
   assert (Hn : (if Nat.eqb (match keep with [] => 0%nat | _ :: _ => nrows t end) 0
                 then length v else match keep with [] => 0%nat | _ :: _ => nrows t end) = nrows t).
@@ -430,7 +478,7 @@ Definition transposed_body (t : table) (new sah : str) : res table :=
         bind (sub_array t columns) (fun data =>
           bind (set_col empty_table new (map CS (tl columns))) (fun result =>
             fold_left (fun acc row =>
-                         bind acc (fun r => set_col r (cell_str (hd CN row)) (tl row)))
+                         bind acc (fun r => set_col r (cell_str (hd CN row)) (coerce_col (tl row))))
                       data (Ok result)))).
 
 Lemma transposed_unfold t (new : str) (select : option str) (sah : str) : hdr t <> [] ->
@@ -449,11 +497,14 @@ Theorem transposed_spec : forall t (new : str) (select : option str) (sah : str)
   In sah (hdr t) ->
   length (dedup [] (map (proj (hdr t) [sah]) (rows t))) = nrows t ->
   NoDup (spec_transposed_header (hdr t) (rows t) new sah) ->
+  (forall r, In r (rows t) ->
+     coerce_col (proj (hdr t) (filter (fun c => negb (str_eqb c sah)) (hdr t)) r) =
+     proj (hdr t) (filter (fun c => negb (str_eqb c sah)) (hdr t)) r) ->
   exists t', transposed t new select = Ok t' /\
              hdr t' = spec_transposed_header (hdr t) (rows t) new sah /\ wf t' /\
              rows t' = spec_transposed (hdr t) (rows t) sah.
 Proof.
-  intros t new select sah Hwf Hhne Hsah Hin Hlen Hnd.
+  intros t new select sah Hwf Hhne Hsah Hin Hlen Hnd Hco.
   pose proof Hwf as [Hl [Hf Hndh]].
   rewrite (transposed_unfold t new select sah Hhne Hsah). clear Hsah. unfold transposed_body.
   assert (Hmem : mem_str sah (hdr t) = true) by (apply mem_str_In; exact Hin).
@@ -478,14 +529,14 @@ Proof.
   { unfold set_col, empty_table. cbn [nrows hdr cols Nat.eqb mem_str existsb app].
     rewrite Nat.eqb_refl. cbn [negb]. rewrite map_length. reflexivity. }
   rewrite Hs. cbn [bind]. clear Hs.
-  rewrite (fold_set_col (fun row => cell_str (hd CN row)) (fun row => tl row)).
+  rewrite (fold_set_col (fun row => cell_str (hd CN row)) (fun row => coerce_col (tl row))).
   rewrite !map_map.
   assert (Hg : map (fun r => cell_str (hd CN (proj (hdr t) (sah :: others) r))) (rows t) =
                map (fun r => cell_str (nth (pos sah (hdr t)) r CN)) (rows t)).
   { apply map_ext. intros r. reflexivity. }
-  assert (Hh : map (fun r => tl (proj (hdr t) (sah :: others) r)) (rows t) =
+  assert (Hh : map (fun r => coerce_col (tl (proj (hdr t) (sah :: others) r))) (rows t) =
                map (proj (hdr t) others) (rows t)).
-  { apply map_ext. intros r. reflexivity. }
+  { apply map_ext_in. intros r Hr. exact (Hco r Hr). }
   rewrite Hg, Hh. clear Hg Hh.
   assert (Hfo : Forall (fun v => length v = length others) (map (proj (hdr t) others) (rows t))).
   { rewrite Forall_forall. intros v Hv. apply in_map_iff in Hv. destruct Hv as [r [Hr _]]. subst v.
@@ -511,11 +562,14 @@ Corollary transposed_spec_some : forall t (new sah : str),
   wf t -> sah <> [] -> In sah (hdr t) ->
   length (dedup [] (map (proj (hdr t) [sah]) (rows t))) = nrows t ->
   NoDup (spec_transposed_header (hdr t) (rows t) new sah) ->
+  (forall r, In r (rows t) ->
+     coerce_col (proj (hdr t) (filter (fun c => negb (str_eqb c sah)) (hdr t)) r) =
+     proj (hdr t) (filter (fun c => negb (str_eqb c sah)) (hdr t)) r) ->
   exists t', transposed t new (Some sah) = Ok t' /\
              hdr t' = spec_transposed_header (hdr t) (rows t) new sah /\ wf t' /\
              rows t' = spec_transposed (hdr t) (rows t) sah.
 Proof.
-  intros t new sah Hwf Hne Hin Hlen Hnd.
+  intros t new sah Hwf Hne Hin Hlen Hnd Hco.
   apply (transposed_spec t new (Some sah) sah Hwf); try assumption.
   - intros Hh. rewrite Hh in Hin. destruct Hin.
   - destruct sah; [contradiction|reflexivity].
@@ -525,11 +579,14 @@ Corollary transposed_spec_none : forall t (new : str),
   wf t -> hdr t <> [] ->
   length (dedup [] (map (proj (hdr t) [hd [] (hdr t)]) (rows t))) = nrows t ->
   NoDup (spec_transposed_header (hdr t) (rows t) new (hd [] (hdr t))) ->
+  (forall r, In r (rows t) ->
+     coerce_col (proj (hdr t) (filter (fun c => negb (str_eqb c (hd [] (hdr t)))) (hdr t)) r) =
+     proj (hdr t) (filter (fun c => negb (str_eqb c (hd [] (hdr t)))) (hdr t)) r) ->
   exists t', transposed t new None = Ok t' /\
              hdr t' = spec_transposed_header (hdr t) (rows t) new (hd [] (hdr t)) /\ wf t' /\
              rows t' = spec_transposed (hdr t) (rows t) (hd [] (hdr t)).
 Proof.
-  intros t new Hwf Hne Hlen Hnd.
+  intros t new Hwf Hne Hlen Hnd Hco.
   apply (transposed_spec t new None (hd [] (hdr t)) Hwf Hne); try assumption.
   - reflexivity.
   - destruct (hdr t); [contradiction|left; reflexivity].
@@ -679,6 +736,9 @@ Theorem appended_spec : forall self (nc : option str) (titled : list (str * tabl
   wf self -> hdr self <> [] ->
   (forall tt, In tt titled -> wf (snd tt) /\ same_set (hdr (snd tt)) (hdr self) = true) ->
   match nc with Some n => ~ In n (hdr self) | None => True end ->
+  (forall c, In c (hdr self) ->
+     coerce_col (flat_map (fun tt : str * table => col_of (snd tt) c) titled) =
+     flat_map (fun tt : str * table => col_of (snd tt) c) titled) ->
   exists t', appended self nc titled = Ok t' /\
     hdr t' = (match nc with Some n => [n] | None => [] end) ++ hdr self /\
     wf t' /\
@@ -686,7 +746,7 @@ Theorem appended_spec : forall self (nc : option str) (titled : list (str * tabl
                 (map (fun tt : str * table => (fst tt, (hdr (snd tt), rows (snd tt)))) titled)
                 (match nc with Some _ => true | None => false end).
 Proof.
-  intros self nc titled Hwf Hhne Ht Hnc.
+  intros self nc titled Hwf Hhne Ht Hnc Hco.
   pose proof Hwf as [Hl [Hf Hndh]].
   set (h := hdr self) in *.
   assert (H : forall tt, In tt titled -> wf (snd tt) /\ incl h (hdr (snd tt))).
@@ -697,7 +757,10 @@ Proof.
   assert (Hca : concat_all (map snd titled) h =
                 Ok (map (fun c => flat_map (fun tt : str * table => col_of (snd tt) c) titled) h)).
   { apply concat_all_ok. intros tt c Hin Hc. destruct (H tt Hin) as [Hw Hi]. split; [exact Hw|apply Hi; exact Hc]. }
-  unfold appended. fold h. rewrite Hall. cbn [negb]. rewrite Hca. cbn [bind].
+  assert (Hdata : map coerce_col (map (fun c => flat_map (fun tt : str * table => col_of (snd tt) c) titled) h) =
+                  map (fun c => flat_map (fun tt : str * table => col_of (snd tt) c) titled) h).
+  { rewrite map_map. apply map_ext_in. intros c Hc. apply Hco. exact Hc. }
+  unfold appended. fold h. rewrite Hall. cbn [negb]. rewrite Hca. cbn [bind]. cbv zeta. rewrite Hdata.
   set (N := sum_len (fun tt : str * table => nrows (snd tt)) titled).
   destruct nc as [n|].
   - assert (Hmem : mem_str n h = false) by (apply mem_str_false; exact Hnc).
@@ -731,4 +794,34 @@ Proof.
       split; [rewrite app_cols_length; cbn [app]; rewrite map_length; reflexivity|].
       split; [apply app_cols_Forall; exact H|exact Hndh].
     + rewrite rows_mkT. apply app_cols_rows. exact H.
+Qed.
+
+(* ------------------------------------------------------------------ the coercion hypotheses on a concrete table *)
+
+(* columns a = [1; 2] (ints), b = [1.5; 2.5] (floats) *)
+Definition ex_table : table :=
+  mkT [[97]; [98]] [[CI 1; CI 2]; [CF 15 (-1); CF 25 (-1)]] 2.
+
+(* with_new_column: the new column is the first cell of each row *)
+Example with_new_column_coerce_ex :
+  coerce_col (map (fun r => hd CN (proj (hdr ex_table) (default_cols ex_table None) r)) (rows ex_table)) =
+  map (fun r => hd CN (proj (hdr ex_table) (default_cols ex_table None) r)) (rows ex_table).
+Proof. apply coerce_col_id. intros c [Hc|[Hc|[]]]; subst c; reflexivity. Qed.
+
+(* transposed on column a: every other cell of a row is a float *)
+Example transposed_coerce_ex : forall r, In r (rows ex_table) ->
+  coerce_col (proj (hdr ex_table) (filter (fun c => negb (str_eqb c [97])) (hdr ex_table)) r) =
+  proj (hdr ex_table) (filter (fun c => negb (str_eqb c [97])) (hdr ex_table)) r.
+Proof.
+  intros r [Hr|[Hr|[]]]; subst r; apply coerce_col_id_float; reflexivity.
+Qed.
+
+(* appended: a table appended to itself; a column is all ints or all floats *)
+Example appended_coerce_ex : forall c, In c (hdr ex_table) ->
+  coerce_col (flat_map (fun tt : str * table => col_of (snd tt) c) [([116], ex_table); ([117], ex_table)]) =
+  flat_map (fun tt : str * table => col_of (snd tt) c) [([116], ex_table); ([117], ex_table)].
+Proof.
+  intros c [Hc|[Hc|[]]]; subst c.
+  - apply coerce_col_id. intros x [Hx|[Hx|[Hx|[Hx|[]]]]]; subst x; reflexivity.
+  - apply coerce_col_id_float. reflexivity.
 Qed.
